@@ -11,7 +11,7 @@ use serde_json::json;
 pub fn prop() -> Prop {
   Prop {
     id: "C20",
-    rule: "case = (source: cold `create` script or hot Subject; 0..8 items over {0..3}; terminal none/complete/error plus up to 2 events after it; key function const / identity / mod 2 / mod 3; groups backed by Subject (local build) or SubjectThreads (thread-safe build); a probe is attached to every group inside the callback that announces it). \
+    rule: "case = (source: cold `create` script or hot Subject; 0..8 items over {0..3} (one case in eight: 64..160 items over up to 30 keys); terminal none/complete/error plus up to 2 events after it; key function const / identity / mod 2 / mod 3; groups backed by Subject (local build) or SubjectThreads (thread-safe build); a probe is attached to every group inside the callback that announces it - or, in half of the cases, groups with key % 3 == 0 are left without a subscriber, or odd keys are subscribed through take(1)). \
            Oracle: groups are announced once per distinct key in first-appearance order; the global log restricted to items equals the source sequence, each item logged under the group of its key at the step it was sent and after that group's announcement; every announced group and the stream of groups get the source's terminal exactly once and nothing afterwards; part `flatten`: group_by(k).flat_map(identity) behind 0..2 C03 operators equals the reference interpreter. Non-trivial: >= 2 keys whose items interleave. Distinct by hash(case). Part `small` enumerates all inputs of length <= 5 over {0,1,2} exhaustively.",
     assumptions: &["the order in which different groups receive the terminal is not constrained (hash-map order)"],
     parts: vec![
@@ -28,6 +28,8 @@ struct Case {
   threads: bool,
   key: KeyF,
   script: Vec<Ev>,
+  /// 0: a probe on every group; 1: groups with key % 3 == 0 get no subscriber; 2: odd keys through take(1)
+  policy: u8,
 }
 
 fn gen_case(c: &mut dyn Choices, small: bool) -> Case {
@@ -50,7 +52,20 @@ fn gen_case(c: &mut dyn Choices, small: bool) -> Case {
     }
   }
   let threads = if small { false } else { c.pick(3) == 0 };
-  Case { hot, threads, key, script }
+  // (appended picks, recorded tapes keep their meaning) subscriber policy, and one case in eight is long:
+  // the items are replaced by 64..160 items over up to 30 keys
+  let mut policy = 0u8;
+  if !small {
+    policy = *c.one_of(&[0u8, 0, 1, 2]);
+    if c.pick(8) == 7 {
+      let m = 64 + c.pick(97);
+      let alpha = *c.one_of(&[30usize, 12, 4]);
+      let tail: Vec<Ev> = script.iter().skip_while(|e| !e.is_terminal()).cloned().collect();
+      script = gen_long_items(c, m, alpha).into_iter().map(Ev::N).collect();
+      script.extend(tail);
+    }
+  }
+  Case { hot, threads, key, script, policy }
 }
 
 fn check_groups(case: &Case, log: &[(i64, usize, Ev)]) -> Result<(), (String, String)> {
@@ -73,10 +88,30 @@ fn check_groups(case: &Case, log: &[(i64, usize, Ev)]) -> Result<(), (String, St
   if ann != keys_in_order {
     return Err(("announce".into(), format!("groups announced {ann:?}, expected {keys_in_order:?}")));
   }
+  // which groups have a probe, and does it leave after the first item?
+  let subscribed = |k: i64| !(case.policy == 1 && k.rem_euclid(3) == 0);
+  let take_one = |k: i64| case.policy == 2 && k.rem_euclid(2) == 1;
   // 2. items: global order == source order, under the right key, at the right step
+  let mut seen_first: Vec<i64> = vec![];
   let exp_items: Vec<(i64, usize, Ev)> = src
     .iter()
-    .filter_map(|(k, e)| if let Ev::N(v) = e { Some((case.key.eval(v), step_of(*k), e.clone())) } else { None })
+    .filter_map(|(k, e)| {
+      if let Ev::N(v) = e {
+        let key = case.key.eval(v);
+        if !subscribed(key) {
+          return None;
+        }
+        if take_one(key) {
+          if seen_first.contains(&key) {
+            return None;
+          }
+          seen_first.push(key);
+        }
+        Some((key, step_of(*k), e.clone()))
+      } else {
+        None
+      }
+    })
     .collect();
   let got_items: Vec<(i64, usize, Ev)> = log.iter().filter(|(g, _, e)| *g != -1 && !e.is_terminal()).cloned().collect();
   if got_items != exp_items {
@@ -98,6 +133,19 @@ fn check_groups(case: &Case, log: &[(i64, usize, Ev)]) -> Result<(), (String, St
   for o in owners {
     let mine: Vec<&(i64, usize, Ev)> = log.iter().filter(|(g, _, _)| *g == o).collect();
     let terms: Vec<&Ev> = mine.iter().map(|x| &x.2).filter(|e| e.is_terminal()).collect();
+    if o != -1 && !subscribed(o) {
+      if !mine.is_empty() {
+        return Err(("unsubscribed-group".into(), format!("group {o} has no subscriber but {mine:?} was logged")));
+      }
+      continue;
+    }
+    if o != -1 && take_one(o) {
+      // first item, then the completion made by take(1)
+      if mine.len() != 2 || mine[1].2 != Ev::C || mine[0].1 != mine[1].1 {
+        return Err(("take1-group".into(), format!("group {o} subscribed through take(1) received {mine:?}")));
+      }
+      continue;
+    }
     match &term {
       None => {
         if !terms.is_empty() {
@@ -121,9 +169,9 @@ fn check_groups(case: &Case, log: &[(i64, usize, Ev)]) -> Result<(), (String, St
 fn judge(case: &Case, ctx: &Ctx) -> Outcome {
   let res = guarded_strict(|| {
     if case.threads {
-      crate::threads::exec_group_by(case.hot, &case.script, case.key)
+      crate::threads::exec_group_by(case.hot, &case.script, case.key, case.policy)
     } else {
-      crate::local::exec_group_by(case.hot, &case.script, case.key)
+      crate::local::exec_group_by(case.hot, &case.script, case.key, case.policy)
     }
   });
   // non-trivial: >= 2 keys with interleaved items
